@@ -30,6 +30,7 @@ QuickClasses ==
     C("n10", <<"mock">>, <<"string">>, "none", <<"any">>, "unset", 1),
     C("n11", <<"x">>, <<"string">>, "none", <<"int">>, "unset", 2),
     C("n12", <<"a">>, <<"int">>, "none", <<"string", "error", "ptr">>, "unset", 1),
+    C("n14", <<"e", "x">>, <<"error", "any">>, "none", << >>, "unset", 1),
     C("n13", <<"a", "_">>, <<"any", "bool">>, "none", <<"bool">>, "true", 1),
     CG("g01", <<"k", "n">>, <<"string", "int">>, "none", <<"string", "error">>, "unset", 1),
     CG("g02u", <<"n", "ks">>, <<"int">>, "string", <<"string">>, "unset", 1),
